@@ -888,6 +888,72 @@ def r10_retrieve_kinds(ctx, prog):
                 r.ok(f['qname'], site, 'copies %s' % (', '.join('%s@%s' % w for w in wr) if wr else 'nothing: rejected'), file=f['file'], line=f['line'])
 
 
+TYPE_SIZES = {'CK_BBOOL': 1, 'CK_BYTE': 1, 'CK_CHAR': 1, 'CK_UTF8CHAR': 1, 'CK_ULONG': 8, 'CK_ULONG_PTR': 8, 'CK_LONG': 8, 'CK_OBJECT_CLASS': 8, 'CK_KEY_TYPE': 8, 'CK_MECHANISM_TYPE': 8, 'CK_ATTRIBUTE_TYPE': 8, 'CK_FLAGS': 8}
+
+
+def r10b_template_stores(ctx, prog):
+    """The nested-template twin of R10: a value stored through the pValue of a caller's CK_ATTRIBUTE entry is stored only after the entry's ulValueLen was found to be at least
+    the size of what is stored (typed store: the size of the type; memcpy: its length argument)."""
+    r = ctx.rule('C17.R10b', 'a store through a caller\'s CK_ATTRIBUTE.pValue is preceded by a test of that entry\'s ulValueLen against the size stored', floor=3, engine='E2 dominance + E8')
+    for f in sorted(prog.functions.values(), key=lambda f: (f['file'], f['line'])):
+        if f['body'] is None or unanalysable(f):
+            continue
+        stores = {}
+        for n in walk(f['body']):
+            if n.get('k') == 'Assign' and n['a'].get('k') == 'Un' and n['a'].get('op') == '*' and n['a']['e'].get('k') == 'Member' and n['a']['e'].get('field') == 'pValue':
+                t = (n['a']['e'].get('cast') or '').replace('*', '').strip()
+                t = {'CK_ULONG_PTR': 'CK_ULONG'}.get(t, t)
+                stores[id(n['a'])] = (n['a']['e']['base'], TYPE_SIZES.get(t), t, n['l'])
+            elif n.get('k') == 'Call' and n.get('callee') == 'memcpy' and len(n.get('args', [])) == 3 and n['args'][0].get('k') == 'Member' and n['args'][0].get('field') == 'pValue':
+                stores[id(n)] = (n['args'][0]['base'], n['args'][2], 'memcpy', n['l'])
+        if not stores:
+            continue
+        ctx.analysed(f)
+
+        def atrig(lhs, rhs, st):
+            return ('store', id(lhs)) if id(lhs) in stores else None
+
+        def trig(e, st):
+            return ('store', id(e)) if id(e) in stores else None
+        sf = SiteFacts(f, prog, trigger=trig, assign_trigger=atrig, track_facts=r'^LT\(.*ulValueLen.*').go()
+        r.paths += sf.paths_returned
+        for (_, sid), hits in sorted(sf.sites.items(), key=lambda kv: stores[kv[0][1]][3]):
+            bnode, size, what, line = stores[sid]
+            base = canon(bnode)
+            site = '%s through %s.pValue@%d' % ('store of a %s' % what if what != 'memcpy' else 'memcpy', base, line)
+            if size is None:
+                r.undecided(f['qname'], site, 'the size of the stored type %s is not known to the rule' % what, file=f['file'], line=line)
+                continue
+            bad = None
+            # the body of an element loop is the same code for every element: it is decided on the iterations whose index is concrete (later iterations have a summarised
+            # index, and the assignment of ulValueLen that precedes the store forgets what was known about that element)
+            idx = {x['name'] for x in walk(bnode) if x.get('k') == 'Var' and x.get('kind') == 'local'}
+            concrete = [h for h in hits if all(str(h['env'].get(v, '')).isdigit() for v in idx)]
+            for h in (concrete or hits):
+                ok = False
+                hb = canon(bnode, h['env'])
+                hs = size if isinstance(size, int) else canon(size, h['env'])
+                for at, t in h['facts']:
+                    m = re.fullmatch(r'LT\((.*)\.ulValueLen,(.*)\)', at)
+                    if m and t is False and m.group(1) == hb:
+                        bound = m.group(2)
+                        mb = re.fullmatch(r'(?:sizeof:)?(\d+)', bound)
+                        if isinstance(hs, int):
+                            ok = ok or (mb is not None and int(mb.group(1)) >= hs)
+                        else:
+                            ok = ok or bound == hs
+                if not ok:
+                    bad = h
+                    break
+            if not isinstance(size, int):
+                size = canon(size)
+            if bad:
+                r.violation(f['qname'], site, '%s bytes are stored through the caller\'s pointer on a path where %s.ulValueLen was not found to be at least that (a wrong or missing bound): the library writes past the buffer the caller announced' % (size, base),
+                            file=f['file'], line=line, path=bad['path'])
+            else:
+                r.ok(f['qname'], site, 'bounded by the entry\'s ulValueLen', file=f['file'], line=line)
+
+
 def r11_conversion_helpers(ctx, prog):
     """The OSSL:: conversion helpers sit between attribute bytes the caller supplied and OpenSSL objects; their pointer parameters are NULL whenever an earlier conversion failed
     (an unknown curve gives no group).  OpenSSL's EC/BN functions dereference their arguments, so every helper tests a pointer parameter before handing it on - most do; one that
@@ -1066,12 +1132,15 @@ def run(ctx):
     r8_ownership(ctx, prog)
     r9_slot_table(ctx, prog)
     r10_retrieve_kinds(ctx, prog)
+    r10b_template_stores(ctx, prog)
     if any(g['qname'].startswith('OSSL::') for g in prog.functions.values()):
         r11_conversion_helpers(ctx, prog)
     r12_key_objects(ctx, prog)
 
 
 MUTANTS = [
+    dict(name='attributemap-bytes-not-bounded', rule='C17.R10b', file='src/lib/P11Attributes.cpp', after='static CK_RV retrieveAttributeMap(',
+         old='\t\t\tif (pTemplate[i].ulValueLen < value.size())\n', new='\t\t\tif (pTemplate[i].ulValueLen == 0)\n'),
     dict(name='rsa-encrypt-key-not-tested', rule='C17.R12', file='src/lib/crypto/OSSLRSA.cpp', after='bool OSSLRSA::encrypt(',
          old='\tif (rsa == NULL)\n', new='\tif (false)\n'),
     dict(name='rsa-public-set0-refusal-ignored', rule='C17.R12', file='src/lib/crypto/OSSLRSAPublicKey.cpp', after='void OSSLRSAPublicKey::createOSSLKey(',
